@@ -210,11 +210,15 @@ Section Multi.
                (i_obj (xs_istyle x)) /\
       (nest (ODict (xq_d a x (p_entry p pos known) (p_secs p pos prev known maxnum) (p_size p maxnum) (p_prev prev))) <= MAX_DEPTH)%nat
     end.
+  (* the startxref block keeps "startxref" within the 25 bytes before %%EOF that Reader::get_xref_start searches *)
+  Definition sx_win (stp : fstyle) (xs : N) : Prop :=
+    (9 + length (sx_mid (s_sx_eol1 stp) (s_sx_sp1 stp) xs (s_sx_sp2 stp) (s_sx_eol2 stp)) <= 25)%nat.
   Fixpoint parts_ok (parts : list mpart) (pos : N) (prev : option N) (known : list (N * sentry)) (maxnum : N) : Prop :=
     match parts with
     | [] => True
     | p :: rest =>
       part_ok p pos prev known maxnum /\
+      (rest = [] -> sx_win (with_part st p true) (p_xpos p pos)) /\
       parts_ok rest (pos + N.of_nat (length (p_text p (p_last rest) pos prev known maxnum))) (Some (p_xpos p pos))
                (p_known p pos known maxnum) (p_size p maxnum - 1)
     end.
@@ -1209,11 +1213,11 @@ Section Multi.
          P ++ r = front ++ startxref_text (with_part st lastp true) xs /\ xs <= blen front /\
          match parts with p :: _ => p_xpos p (blen P) <= xs | [] => True end /\
          dict_get (dict_swap_remove t0 K_Prev) K_XRefStm = None /\ dict_has (dict_swap_remove t0 K_Prev) K_Encrypt = false /\
-         trailer_src t0 /\ dict_get t0 Xref.K_Size = Some (OInt (Z.of_N (maxF + 1)))).
+         trailer_src t0 /\ dict_get t0 Xref.K_Size = Some (OInt (Z.of_N (maxF + 1))) /\ sx_win (with_part st lastp true) xs).
   Proof.
     induction parts as [|p rest IH]; intros P chain known maxnum xt r Hdom Hinv Hw HU.
     - cbn [write_parts] in Hw. inversion Hw; subst r. rewrite app_nil_r. exists chain, known, maxnum, xt. split; [exact Hinv|]. intro K. contradiction.
-    - cbn [parts_ok] in Hdom. destruct Hdom as [Hok Hdom'].
+    - cbn [parts_ok] in Hdom. destruct Hdom as [Hok [Hwin Hdom']].
       rewrite (write_parts_step p rest) in Hw.
       destruct (negb (nodup_N (p_hnums p) && forallb (fun no => mem_N (fst no) (flat_map (part_defines st) rest)) (mp_old p) &&
                       Nat.eqb (length (p_olds p)) (length (mp_old p)))) eqn:C1; [discriminate Hw|].
@@ -1248,7 +1252,7 @@ Section Multi.
         eexists _, _, _, _. split; [exact Hinv'|]. intros _.
         exists (p_xpos p (blen P)), px, pt, chain, p, front. split; [reflexivity|]. split; [exact Hsort|]. split; [reflexivity|].
         split; [exact F1|]. split; [exact F2|]. split; [lia|]. split; [exact Hstm|split; [exact Henc|split; [exact Hsrc|]]].
-        rewrite Hsize. rewrite p_size_eq. f_equal. f_equal. f_equal. lia.
+        split; [|exact (Hwin eq_refl)]. rewrite Hsize. rewrite p_size_eq. f_equal. f_equal. f_equal. lia.
       + assert (Epos : blen P + N.of_nat (length T) = blen (P ++ T)) by (unfold blen; rewrite app_length; lia).
         rewrite Epos in Hr, Hdom'.
         destruct (IH (P ++ T) ((p_xpos p (blen P), (px, pt)) :: chain) (p_known p (blen P) known maxnum) (p_size p maxnum - 1) (xtp ++ xt) r' Hdom' Hinv' Hr) as [cF [kF [mF [xF [I1 I2]]]]].
@@ -1294,14 +1298,14 @@ Section Multi.
     ref_write_multi st parts a = Some file -> blen file <= u32_max ->
     parts_ok parts (blen (RefWriter.header st (a_version a))) None [] 0 ->
     match parts with p :: _ => 25 < p_xpos p (blen (RefWriter.header st (a_version a))) | [] => True end ->
-    window_ok parts file -> (forall n, In n xids -> In n (part_xids parts)) ->
+    (forall n, In n xids -> In n (part_xids parts)) ->
     exists d t, load_ext dec can file = LOk d t /\ d_version d = a_version a /\
       (forall tp, In tp tops -> lookup (d_objects d) (fst (fst tp)) = Some (loaded_top tp)) /\
       (forall id o, lookup (d_objects d) id = Some o -> (exists tp, In tp tops /\ fst (fst tp) = id) \/ In (fst id) xids) /\
       exists t0, d_trailer d = dict_swap_remove t0 K_Prev /\ trailer_src t0 /\
                  dict_get t0 Xref.K_Size = Some (OInt (Z.of_N (1 + max_num (nums ++ xids)))).
   Proof.
-    intros Hu Hw Hlen Hdom H25 Hsx Hxsub.
+    intros Hu Hw Hlen Hdom H25 Hxsub.
     destruct (ref_write_multi_shape parts file Hw) as [r [-> [Hr [Hne [Hj [Hv Hplaced]]]]]].
     set (hdr := RefWriter.header st (a_version a)) in *.
     assert (Hhdr : exists b r0, hdr = b :: r0) by (unfold hdr, RefWriter.header; eexists; eexists; reflexivity).
@@ -1319,7 +1323,7 @@ Section Multi.
       - destruct Hhdr as [b [r0 ->]]. unfold blen. cbn [length]. lia. }
     assert (HU : blen (hdr ++ r) <= u32_max) by (unfold blen in *; rewrite !app_length in *; lia).
     destruct (parts_inv parts hdr [] [] 0 [] r Hdom Hinv0 Hr HU) as [cF [kF [mF [xtF [IF HF]]]]].
-    destruct (HF Hne) as [xs [x0 [t0 [cr [lastp [front [E1 [E2 [E3 [E4 [E5 [E6 [E7 [E8 [E9 E10]]]]]]]]]]]]]]]. subst cF. clear HF.
+    destruct (HF Hne) as [xs [x0 [t0 [cr [lastp [front [E1 [E2 [E3 [E4 [E5 [E6 [E7 [E8 [E9 [E10 E11]]]]]]]]]]]]]]]]. subst cF. clear HF.
     pose proof (i_chain _ _ _ _ _ _ IF []) as Hc. rewrite app_nil_r in Hc. cbn [chain_ok] in Hc.
     destruct Hc as [Hc1 [Hc2 [Hc3 [Hc4 Hc5]]]].
     set (buf := hdr ++ r) in *.
@@ -1396,7 +1400,7 @@ Section Multi.
         * exact E5.
         * destruct parts as [|p0 parts0]; [contradiction|]. lia.
         * unfold u32_max in HU. lia.
-        * apply Hsx; [exact E3|]. unfold buf, blen in *. rewrite !app_length in *. lia.
+        * exact E11.
       + lia.
       + exact Hc2.
       + exact E7.
